@@ -371,6 +371,15 @@ var nearMissLines = []string{
 	"// @packageonlyy a, b",
 	"// @ignoreX IMM01",
 	"// @Ignore ALL",
+	"// // @immutable", // commented-out annotation
+	"//// @testonly",
+	"/// @immutable",
+	"// // @constructor New",
+	"//\t// @packageonly",
+	"// /@immutable",
+	"// * @immutable",
+	"// - @testonly",
+	"// > @constructor New",
 }
 
 // annotation lines that ARE well-formed; only usable at inert attachment sites
@@ -449,7 +458,7 @@ func SaltNearMiss(t *rapid.T, p *Prog) SaltInfo {
 					if chance("funcDoc", 40) {
 						// @immutable / @constructor / @implements / @mutable mean nothing on a function;
 						// @testonly / @packageonly would, so only malformed spellings of those
-						d.ExtraDoc = append(d.ExtraDoc, pick([]string{"// @immutable", "// @constructor New", "// @implements Stringer", "// @mutable", "// @Testonly", "// @testonlyx", "/* @testonly */", "// @ packageonly", "// see @testonly", "// @PackageOnly a"}, "funcDocLine"))
+						d.ExtraDoc = append(d.ExtraDoc, pick([]string{"// @immutable", "// @constructor New", "// @implements Stringer", "// @mutable", "// @Testonly", "// @testonlyx", "/* @testonly */", "// @ packageonly", "// see @testonly", "// @PackageOnly a", "// // @testonly", "//// @testonly", "/// @packageonly", "// /@testonly"}, "funcDocLine"))
 						info.DocNearMiss++
 					}
 					if chance("funcDetached", 20) {
